@@ -14,7 +14,7 @@ import os
 ID = "C12"
 LEVEL = "exploration"
 RULE = (
-    "alphabet of 39 requests (17 fixed + a base request with 21 one-argument-at-a-time variants covering every argument of the solver signature; incl. integer / list / numpy-integer spellings of two requests, footprint/dispersion twins on identical geometry and same-shape different-physics pairs) (shapes 9x7 .. 48x40, odd sizes, truncated / over-requested modes, single and double precision, footprint and "
+    "alphabet of 44 requests (22 fixed + a base request with 21 one-argument-at-a-time variants covering every argument of the solver signature; incl. integer / list / numpy-integer / ndarray spellings and Fortran-ordered / transposed / strided source layouts of five requests, footprint/dispersion twins on identical geometry and same-shape different-physics pairs) (shapes 9x7 .. 48x40, odd sizes, truncated / over-requested modes, single and double precision, footprint and "
     "dispersion, default / zero / explicit halo, analytic, multi-level); histories of 60 operations drawn from {solve, set NUM_THREADS in "
     "1..8, reset_fft_manager, get_fft_manager(k), fftw_wisdom.pkl dropped / truncated / garbage / foreign, allocation noise}; 16 "
     "history runners execute concurrently (loaded machine).  non-trivial = a solve preceded by a different request, a thread change or a "
@@ -76,6 +76,15 @@ def requests():
     # the same numbers as r4 / r5 given as integers, lists and numpy integers: a pure function of the argument VALUES
     R["r15"] = dict(R["r4"], domain=(100, 112), levels=[np.int64(2), np.int64(8)], modes=[6, 8], halo=0, meas_pt=(30, 48), srf_bg_conc=1.5)
     R["r16"] = dict(R["r5"], domain=[320, 256], levels=np.array([10, 3, 17], dtype=np.int32), modes=(np.int64(40), np.int64(40)), halo=40, meas_pt=(160, 128))
+    # the same source values in another memory layout (a transposed raster, a Fortran-ordered array, a strided view into a bigger array)
+    R["r17"] = dict(R["r0"], srf_flx=np.asfortranarray(R["r0"]["srf_flx"]))
+    R["r18"] = dict(R["r8"], srf_flx=np.ascontiguousarray(R["r8"]["srf_flx"].T).T)
+    big = np.full((28, 21), np.nan)
+    big[::2, 1::2] = R["r4"]["srf_flx"]
+    R["r19"] = dict(R["r4"], srf_flx=big[::2, 1::2])
+    # float64 / int64 ndarrays where tuples are customary: reused by every repeat of the request in a history (a user loop keeps its arrays)
+    R["r20"] = dict(R["r14"], meas_pt=np.array([30.0, 48.0]), domain=np.array([100.0, 112.0]), modes=np.array([6, 8]), levels=np.array([2, 8]))
+    R["r21"] = dict(R["r2"], meas_pt=np.array([120.0, 80.0]), domain=np.array([240.0, 160.0]))
     # one-argument-at-a-time family: a small base request and, for every argument of the solver signature, a request that
     # differs from the base in that argument only (state memoised on any proper subset of the arguments mixes one of these pairs)
     nzv = 7
@@ -111,11 +120,11 @@ def requests():
 
 
 PAIRS = {"r1": "r0", "r3": "r2", "r9": "r8", "v_single": "v0"}  # single -> its double counterpart
-TWINS = {"r11": "r2", "r12": "r5", "r13": "r0", "r14": "r4", "r10": "r0", "r15": "r4", "r16": "r5"}
+TWINS = {"r11": "r2", "r12": "r5", "r13": "r0", "r14": "r4", "r10": "r0", "r15": "r4", "r16": "r5", "r17": "r0", "r18": "r8", "r19": "r4", "r20": "r14", "r21": "r2"}
 VARIANTS = ["v_flxvals", "v_flxshape", "v_z", "v_u", "v_v", "v_kx", "v_ky", "v_kz", "v_domain_scaled", "v_domain_swapped", "v_levels_order",
             "v_levels_other", "v_levels_scalar", "v_modes", "v_halo", "v_halo_none", "v_measpt", "v_bg", "v_analytic", "v_footprint", "v_single"]
 TWINS.update({v: "v0" for v in VARIANTS})
-SAME_VALUES = {"r15": "r4", "r16": "r5"}  # integer / list / numpy-integer spelling of the same argument values  # same geometry, other mode / other physics
+SAME_VALUES = {"r15": "r4", "r16": "r5", "r17": "r0", "r18": "r8", "r19": "r4", "r20": "r14", "r21": "r2"}  # integer / list / numpy-integer spelling of the same argument values  # same geometry, other mode / other physics
 
 
 def do_solve(req):
@@ -229,8 +238,30 @@ def run_case(case):
     warnings.simplefilter("ignore")
     rc.NUM_THREADS = 1
     wis = "fftw_wisdom.pkl"
-    for step in range(60):
-        op = str(rng.choice(["solve", "solve", "solve", "threads", "reset", "manager", "wisdom", "noise"]))
+    pending = []
+    LAYOUTS = ("r17", "r18", "r19", "r20", "r21")
+    if not any(x in pool for x in LAYOUTS):
+        pool.append(str(rng.choice(LAYOUTS[:2])))
+        pool.append(SAME_VALUES[pool[-1]])
+        for nm_ in pool[-2:]:
+            need(nm_)
+    step = 0
+    while step < 60 or pending:
+        step += 1
+        forced = None
+        if pending:
+            op, forced = pending.pop(0)
+        else:
+            op = str(rng.choice(["solve", "solve", "solve", "threads", "reset", "manager", "wisdom", "noise", "burst"]))
+        if op == "burst":
+            # the same request several times in a row with allocation noise in between (temporaries land on other addresses / alignments)
+            cand = [x for x in pool if x in LAYOUTS] or pool
+            nm_b = str(rng.choice(cand))
+            for _ in range(5):
+                pending += [("solve", nm_b), ("noise", None)]
+            counters["bursts"] = counters.get("bursts", 0) + 1
+            hist.append(f"burst:{nm_b}")
+            continue
         if op == "threads":
             rc.NUM_THREADS = int(rng.integers(1, 9))
             counters["thread_changes"] += 1
@@ -270,7 +301,7 @@ def run_case(case):
             counters["alloc_noise"] += 1
             hist.append("noise")
         else:
-            nm = str(rng.choice(pool))
+            nm = forced or str(rng.choice(pool))
             st = state_tuple()
             try:
                 c, f = do_solve(R[nm])
